@@ -93,6 +93,17 @@ CLAIMED = {
              "are decided by the junk stream on the real back end (catch_unwind, stall detection, a result for every read).",
         note=TTY_NOTE + "Runtime behaviour (signals, unsafe, kernel) is exercised, not modelled.",
         technique="Coq proof: progress calculus over the editor monad (input size non-increasing / decreasing, fuel bounded by input) with fuel induction for all nine loops; totality calculus for the decoder; extracted-model differential check on junk input through a pty + crash/stall oracle"),
+    "C16": dict(
+        text="PARTIAL by construction. Theorem over a deliberately small model of readline_with and its restoring Guard (terminal "
+             "settings opaque, the editing loop ANY function that writes ordinary output and ends as line / end-of-file / interrupt "
+             "/ undecodable input / helper error / helper panic, the Guard's Drop running on every exit): each read leaves exactly "
+             "the settings it found and bracketed paste off, and so for any number of successive reads with the application "
+             "changing the settings in between. That the code is an instance of this model (Drop runs on unwinding, nothing else "
+             "touches termios, a later read saves what IT finds) is NOT proved: it is checked on every run by the rawmode stream "
+             "-- tcgetattr on a real pty before and after each read, all flags and control characters compared, for every exit "
+             "kind, cooked and raw initial modes, settings switched between reads, paste and signals options on and off.",
+        note=TTY_NOTE + "The runtime behaviour the model cannot exhibit: unwinding, tcsetattr, the line discipline.",
+        technique="Coq proof over a small abstract model (induction over the reads) + tcgetattr-based oracle on a pty for every exit kind"),
     "C13": dict(
         text="Theorems for every validator, editor state and text: executing Enter / C-j / C-m says Submit only if the verdict on "
              "the current text is Valid, and then text and cursor are exactly those validated; a Valid verdict does submit; "
